@@ -6,7 +6,7 @@ use std::time::Duration;
 pub fn run(cfg: &Cfg) -> i32 {
     let mut agg = Agg::new(cfg);
     let tier = cfg.tier;
-    let n = tier.pick(160, 4000);
+    let n = tier.pick(160, 2000);
     agg.run_parallel("market", n, Duration::from_secs(tier.pick(240, 1800)), |i, rng| super::c06::history(i, rng, tier, "C08"));
     agg.finish(
         "exploration",
